@@ -1,3 +1,4 @@
+import Ebu.Generated.Consts
 import Ebu.Props.C03
 import Ebu.Spec.Log
 import Ebu.Proofs.Log
@@ -109,5 +110,15 @@ locked for Append) in the CURRENT source: concurrent appenders cannot interleave
 and "insert", so offsets increase in log order under every schedule -/
 theorem memory_store_locked : Ebu.Locks.Discipline Ebu.Generated.accessFacts = true :=
   Ebu.Props.C03.facts_discipline
+
+/-- the model's memory-store offsets (`fmt20` = 20 zero-padded digits) are what the CURRENT source
+formats (`fmt.Sprintf` verb extracted from MemoryStore.Append on every run), the oldest-offset
+literal is the empty string, and the SQLite store formats and parses positions in base 10 / 64 bits -/
+theorem offset_formats_match_source :
+    Ebu.Generated.Consts.memOffsetWidth = 20 ∧ Ebu.Generated.Consts.memOffsetZeroPadded = true ∧
+    Ebu.Generated.Consts.offsetOldest = "" ∧ Ebu.Generated.Consts.sqliteFormatBase = 10 ∧
+    Ebu.Generated.Consts.sqliteParseBase = 10 ∧ Ebu.Generated.Consts.sqliteParseBits = 64 ∧
+    fmt20 = digitsW Ebu.Generated.Consts.memOffsetWidth := by
+  refine ⟨by decide, by decide, by decide, by decide, by decide, by decide, rfl⟩
 
 end Ebu.Props.C10
